@@ -13,7 +13,7 @@
 //!
 //! Factors (all VALID YAML / JSON of the documented shape): schemaOutput (absent / .d.ts / .ts), resolversOutput,
 //! serverGraphqlOutput, schemaModuleSpecifier (absent / present), mode (absent / the three modes), emitSchemaRuntime
-//! (absent / true / false), type (absent / scalarTypes single / separate + allowUndefinedAsOptionalInput), name (absent /
+//! (absent / true / false), type (scalarTypes single / absent — the custom scalar then has no type: a diagnostic — / separate + send-receive + allowUndefinedAsOptionalInput), name (absent /
 //! suffixes / capitalizeOperationNames: false), export (absent / all true / mixed), plugins (absent / model /
 //! graphql-scalars / unknown name / both), schema sources (one SDL file / two with an extension / introspection JSON /
 //! glob matching nothing / key absent), documents (several with an #import / one / glob matching nothing / key absent),
@@ -173,8 +173,9 @@ pub fn materialise(row: &[usize]) -> (Vec<(String, String)>, Vec<String>) {
     if row[F_RUNTIME] > 0 {
         generate.insert("emitSchemaRuntime".into(), json!(row[F_RUNTIME] == 1));
     }
+    // 0 (baseline) = the custom scalar has a type; 1 = no `type` key: generation answers "Type for scalar 'Date' is not provided"
     match row[F_TYPE] {
-        1 => drop(generate.insert("type".into(), json!({"scalarTypes": {"Date": "string"}}))),
+        0 => drop(generate.insert("type".into(), json!({"scalarTypes": {"Date": "string"}}))),
         2 => drop(generate.insert("type".into(), json!({"scalarTypes": {"Date": {"resolverInput": "string", "resolverOutput": "Date | string", "operationInput": "string", "operationOutput": "string"}, "ID": {"send": "string | number", "receive": "string"}}, "allowUndefinedAsOptionalInput": false}))),
         _ => {}
     }
@@ -321,6 +322,81 @@ pub fn pairwise_rows(rng: &mut Rng) -> Vec<Value> {
 
 pub fn random_rows(rng: &mut Rng, count: usize) -> Vec<Value> {
     (0..count).map(|_| case_of(&random_row(rng), "random")).collect()
+}
+
+/// plugin-specific user errors: the faults each natively available plugin's OWN schema check reports (model plugin:
+/// `@model` on an object without / with a null `type`, `type` on a field, object- and field-level together, on
+/// interface fields; plus what the core check reports about the plugin's directive: wrong argument type, unknown
+/// argument, unsupported locations, repetition, use without the plugin) and legal uses at the edges (root type, all
+/// fields of a type, extensions) × every ordered plugin list (model alone / first / last / duplicated / absent) ×
+/// resolversOutput + serverGraphqlOutput present / absent × commands. Later stages rely on the plugin's check as
+/// their precondition, so every way of losing or reordering plugin diagnostics shows here.
+pub fn plugin_fault_rows() -> Vec<Value> {
+    const BASE: &str = "scalar Date\ninterface Node { id: ID! }\nenum Role { ADMIN USER }\ninput Filter { q: String }\n";
+    // (name, schema text after BASE)
+    let faults: Vec<(&str, String)> = vec![
+        ("legal-object-and-field-use", "type Query { me: User posts: [Post!]! }\ntype User implements Node @model(type: \"UserModel\") { id: ID! name: String }\ntype Post implements Node { id: ID! @model title: String @model body(f: Filter): String }\n".into()),
+        ("object-without-type", "type Query { me: User }\ntype User implements Node @model { id: ID! name: String }\n".into()),
+        ("object-null-type", "type Query { me: User }\ntype User implements Node @model(type: null) { id: ID! name: String }\n".into()),
+        ("type-on-field", "type Query { me: User }\ntype User implements Node { id: ID! @model(type: \"string\") name: String }\n".into()),
+        ("object-and-field-together", "type Query { me: User }\ntype User implements Node @model(type: \"UserModel\") { id: ID! @model name: String }\n".into()),
+        ("object-without-type-and-field", "type Query { me: User }\ntype User implements Node @model { id: ID! @model(type: \"x\") name: String }\n".into()),
+        ("wrong-argument-type", "type Query { me: User }\ntype User implements Node @model(type: 1) { id: ID! name: String }\n".into()),
+        ("unknown-argument", "type Query { me: User }\ntype User implements Node @model(kind: \"x\") { id: ID! name: String }\n".into()),
+        ("on-interface-field", "type Query { me: User node: Named }\ninterface Named { name: String @model }\ntype User implements Node & Named { id: ID! name: String }\n".into()),
+        ("on-unsupported-locations", "type Query { me: User r: Role f(x: Filter): Date }\ntype User implements Node { id: ID! name: String }\nextend enum Role @model\nextend input Filter @model(type: \"F\")\nextend scalar Date @model\n".into()),
+        ("on-interface-type", "type Query { me: User node: Named }\ninterface Named @model(type: \"N\") { name: String }\ntype User implements Node & Named { id: ID! name: String }\n".into()),
+        ("repeated-on-object", "type Query { me: User }\ntype User implements Node @model(type: \"A\") @model { id: ID! name: String }\n".into()),
+        ("on-root-type", "type Query @model(type: \"RootModel\") { me: User }\ntype User implements Node { id: ID! name: String }\ntype Mutation @model(type: \"M\") { touch: Boolean @deprecated }\n".into()),
+        ("all-fields-of-a-type", "type Query { me: User @model }\ntype User implements Node { id: ID! @model name: String @model }\n".into()),
+        ("through-extension", "type Query { me: User }\ntype User implements Node { id: ID! name: String }\nextend type User @model { extra: Int @model(type: \"x\") }\n".into()),
+    ];
+    let plugin_lists: [(&str, &[&str]); 6] = [
+        ("model-alone", &["nitrogql:model-plugin"]),
+        ("model-first", &["nitrogql:model-plugin", "nitrogql:graphql-scalars-plugin"]),
+        ("model-last", &["nitrogql:graphql-scalars-plugin", "nitrogql:model-plugin"]),
+        ("model-duplicated", &["nitrogql:model-plugin", "nitrogql:model-plugin"]),
+        ("other-plugin-only", &["nitrogql:graphql-scalars-plugin"]),
+        ("no-plugins", &[]),
+    ];
+    let mut out = vec![];
+    let mut k = 0usize;
+    for (fault, schema) in &faults {
+        for (pname, plugins) in plugin_lists.iter() {
+            // (resolversOutput + serverGraphqlOutput present, commands)
+            for (server, cmds) in [(true, &["generate"][..]), (false, &["generate"][..]), (true, &["check", "generate"][..]), (false, &["check"][..])] {
+                let mut generate = Map::new();
+                generate.insert("schemaOutput".into(), json!("./out/schema.d.ts"));
+                generate.insert("type".into(), json!({"scalarTypes": {"Date": "string"}}));
+                if server {
+                    generate.insert("resolversOutput".into(), json!("./out/server/resolvers.d.ts"));
+                    generate.insert("serverGraphqlOutput".into(), json!("./out/server/graphql.ts"));
+                }
+                let mut nitrogql = Map::new();
+                if !plugins.is_empty() {
+                    nitrogql.insert("plugins".into(), json!(plugins));
+                }
+                nitrogql.insert("generate".into(), Value::Object(generate));
+                let cfg = json!({"schema": "./schema/*.graphql", "documents": "./src/*.graphql", "extensions": {"nitrogql": Value::Object(nitrogql)}});
+                let mut y = String::new();
+                yaml(&cfg, 0, &mut y);
+                let files = vec![
+                    json!(["graphql.config.yaml", y]),
+                    json!(["schema/main.graphql", format!("{BASE}{schema}")]),
+                    json!(["src/me.graphql", "query Me { me { id name } }\n"]),
+                ];
+                let mut args: Vec<String> = vec![];
+                if k % 3 > 0 {
+                    args.push("--output-format".into());
+                    args.push(["json", "rdjson"][k % 3 - 1].into());
+                }
+                k += 1;
+                args.extend(cmds.iter().map(|c| c.to_string()));
+                out.push(json!({"stream": "cli", "class": format!("plugin-faults:{fault}:{pname}:{}", if server { "with-server-outputs" } else { "without-server-outputs" }), "files": files, "args": args}));
+            }
+        }
+    }
+    out
 }
 
 pub enum Verdict {
